@@ -412,8 +412,12 @@ impl<'g, 'r> ProgGen<'g, 'r> {
                 Expr::var("Y")
             }
             _ => {
-                let c: Vec<(String, Ty)> =
-                    self.visible_scalars(fc, Some(true), false).into_iter().filter(|(_, t)| *t == Ty::U8).collect();
+                // (const scalars are not used as indices: their value is not bounded by the array)
+                let c: Vec<(String, Ty)> = self
+                    .visible_scalars(fc, Some(true), false)
+                    .into_iter()
+                    .filter(|(n, t)| *t == Ty::U8 && !n.starts_with('K'))
+                    .collect();
                 if c.is_empty() {
                     Expr::lit(self.g.below(n) as i32)
                 } else {
